@@ -43,7 +43,9 @@ class G:
             v = "XL" + "ABC"[self.loop_depth - 1] + ("F" if self.in_func else ""); lim = r.randint(0, 5)
             body = self.block(d - 1)
             self.loop_depth -= 1
-            return ("for", v, ("lit", r.randint(0, 2)), ("bin", r.choice([9, 10]), ("var", v), ("lit", lim)), ("inc", v, 1), body)
+            loop = ("for", v, ("lit", r.randint(0, 2)), ("bin", r.choice([9, 10]), ("var", v), ("lit", lim)), ("inc", v, 1), body)
+            # the loop variable stays visible after the loop: its final value shows how often the increment clause ran
+            return ("seq", [loop, ("print", ("var", v))]) if r.random() < 0.6 else loop
         if d > 0 and x < 0.36 and self.loop_depth < 3:
             self.loop_depth += 1; self.nloops += 1
             v = "XW" + "ABC"[self.loop_depth - 1] + ("F" if self.in_func else ""); lim = r.randint(0, 5)
@@ -51,7 +53,7 @@ class G:
             # the counter is advanced first so that CONTINUE cannot skip it (termination of the generated program)
             body = [("inc", v, 1)] + body
             self.loop_depth -= 1
-            return ("seq", [("decl", v, ("lit", 0)), ("while", ("bin", 9, ("var", v), ("lit", lim)), body)])
+            return ("seq", [("decl", v, ("lit", 0)), ("while", ("bin", 9, ("var", v), ("lit", lim)), body)] + ([("print", ("var", v))] if r.random() < 0.5 else []))
         if x < 0.42 and self.loop_depth > 0: return ("if", self.cond(), [r.choice([("break",), ("continue",)])], [])
         if x < 0.45 and self.in_func: return ("ret", self.expr(1, False))
         if x < 0.50 and self.funcs:
@@ -149,6 +151,8 @@ def gen_case(rng):
     return src, "(%s %s)" % (fsexp, ss(prog)), g.nloops + g.ncalls
 
 FIXED = [
+    ("FOR(INT I=0;I<10;I++){ IF(I==3){BREAK} } PRINT(I)", "(() ((for I 0 (b 9 I 10) (inc I 1) ((if (b 5 I 3) ((break)) ()))) (print I)))"),
+    ("FOR(INT I=0;I<4;I++){ IF(I==1){CONTINUE} n60 } PRINT(I)", "(() ((for I 0 (b 9 I 4) (inc I 1) ((if (b 5 I 1) ((continue)) ()) (note 60))) (print I)))"),
     ("FUNCTION FACT(KA,ACC){ IF(KA<=1){ RETURN(ACC) } RETURN(FACT(KA-1, ACC*KA)) } PRINT(FACT(5,1))",
      "(((fn FACT ((KA _) (ACC _)) ((if (b 10 KA 1) ((ret ACC)) ()) (ret (call FACT ((b 4 KA 1) (b 0 ACC KA))))))) ((print (call FACT (5 1)))))"),
     ("FUNCTION DIFF(IA,JB){ RETURN(IA-JB) } INT IA=10; INT JB=3; PRINT(DIFF(JB,IA))",
